@@ -261,6 +261,92 @@ class ChainIdentity(Contract):
         return out
 
 
+def chain_filter(steps, coordinates, data, weights):
+    """Chain.filter as a user calls it (whatever class in the MRO implements it)."""
+    return verde.Chain(steps).filter(coordinates, data, weights)
+
+
+@register
+class ChainFilter(Contract):
+    """The filter clause of C06 for a Chain (incl. chains with block reductions inside): the coordinates and weights
+    it was given, data minus the chain's prediction AT THE GIVEN POINTS, in the data's shape. Executes the real
+    Chain.filter / Chain.fit / Chain.predict / BaseGridder.filter on abstract steps."""
+
+    target = "contracts.compose_c06:chain_filter"
+    native_replay = False
+
+    def patch_modules(self, P):
+        import verde.chain
+        import verde.base.base_classes as bc
+        from pyvc.contract import default_patches
+
+        default_patches(P, verde.chain)
+        default_patches(P, bc)
+
+    def configs(self, tier):
+        kinds = ["g", "gg", "rg", "mg", "grg", "gmg"] + (["rgg", "ggg", "mgrg"] if tier == "thorough" else [])
+        return [{"kinds": k, "weights": w, "rank": r} for k in kinds for w, r in ((False, 1), (True, 2))]
+
+    def setup(self, B, cfg):
+        steps = []
+        for k, kind in enumerate(cfg["kinds"]):
+            steps.append(("s%d" % k, AbstractGridder("f%d" % k, 1) if kind == "g" else AbstractReducer("f%d" % k, kind == "m")))
+        coords = _coords(B, cfg["rank"], 0, minsize=1)
+        return (steps, coords, B.array("data", coords[0].shape), B.array("weights", coords[0].shape) if cfg["weights"] else None), {}
+
+    def samples(self, rng, nrng, tier):
+        n = 0
+        while n < (12 if tier == "thorough" else 6):
+            arrs = _rand_coords(rng, nrng, rng.choice([1, 2]), 2, scale=2.0)
+            if arrs[0].size < 8:
+                continue
+            n += 1
+            w = rng.choice([None, np.abs(arrs[3]) + 0.1])
+            red = np.average if w is not None else rng.choice([np.median, np.mean])  # only np.average takes weights
+            steps = [
+                [("t", verde.Trend(1))],
+                [("r", verde.BlockReduce(red, spacing=1.0)), ("t", verde.Trend(1))],
+                [("m", verde.BlockMean(spacing=1.5)), ("t", verde.Trend(0))],
+                [("c", verde.Chain([("r", verde.BlockReduce(red, spacing=1.0)), ("t", verde.Trend(1))])), ("k", verde.KNeighbors())],
+            ][n % 4]
+            yield (steps, arrs[:2], arrs[2], w), {}
+
+    tol = (1e-7, 1e-7)
+
+    def ensures(self, a, r):
+        c = ctx()
+        ok = isinstance(r, tuple) and len(r) == 3
+        out = {"returns_coordinates_residuals_weights": ok}
+        if not ok:
+            return out
+        coords, res, w = r
+        d = a.data
+        if c.concrete:
+            import warnings
+
+            coords_in, d_in = unwrap(a.coordinates), unwrap(d)
+            with warnings.catch_warnings():
+                warnings.simplefilter("ignore")
+                ref = verde.Chain([(n, _twin(s)) for n, s in a.steps]).fit(coords_in, d_in, unwrap(a.weights))
+                pred = np.asarray(ref.predict(coords_in))
+            out["coordinates_returned_as_given"] = len(coords) == len(coords_in) and all(np.array_equal(unwrap(x), y) for x, y in zip(coords, coords_in))
+            out["weights_returned_as_given"] = (w is None) == (a.weights is None) and (w is None or np.array_equal(unwrap(w), unwrap(a.weights)))
+            rr = unwrap(res)
+            out["residual_is_data_minus_chain_prediction_at_the_given_points_in_the_data_shape"] = bool(np.shape(rr) == d_in.shape and np.allclose(rr, d_in - pred.reshape(d_in.shape), atol=1e-7 * (float(np.abs(d_in).max()) + 1.0)))
+            return out
+        out["coordinates_returned_as_given"] = coords is a.coordinates
+        out["weights_returned_as_given"] = w is a.weights
+        ok = isinstance(res, SymArr) and res.ndim == d.ndim
+        out["residual_is_one_array_of_the_data_rank"] = ok
+        if not ok:
+            return out
+        E, N = a.coordinates[0], a.coordinates[1]
+        gs = [s for _, s in a.steps if isinstance(s, AbstractGridder)]
+        out["residual_has_the_data_shape"] = and_(*[x == y for x, y in zip(res.shape, d.shape)])
+        out["residual_is_data_minus_chain_prediction_at_the_given_points"] = Forall(d.shape, lambda *ix: res.at(*ix) == d.at(*ix) - sum(g.value(0, E.at(*ix), N.at(*ix), gen=1) for g in gs))
+        return out
+
+
 def chain_identity(steps, coordinates, data, weights):
     chain = verde.Chain(steps)
     chain.fit(coordinates, data, weights)
